@@ -32,7 +32,8 @@ func module() pipe.Tree {
 }
 
 var kinds = []string{"error", "unparseable", "panic", "goexit", "exit", "kill",
-	"unparseable:unterminated-string", "unparseable:nul-byte", "unparseable:statement-at-top-level", "unparseable:garbage-after-valid-declarations", "unparseable:stray-closing-brace"}
+	"unparseable:unterminated-string", "unparseable:nul-byte", "unparseable:statement-at-top-level", "unparseable:garbage-after-valid-declarations", "unparseable:stray-closing-brace",
+	"unparseable:behind-a-line-directive", "unparseable:behind-a-line-directive-with-a-large-line", "unparseable:behind-a-line-directive-naming-the-output-file"}
 
 var unparseableTexts = map[string]string{
 	"unparseable":                                  "func {\n",
@@ -41,6 +42,10 @@ var unparseableTexts = map[string]string{
 	"unparseable:statement-at-top-level":           "x_$T := 1\n",
 	"unparseable:garbage-after-valid-declarations": "var Ok_$T = 1\n\nfunc Fine_$T() {}\n\n)\n",
 	"unparseable:stray-closing-brace":              "}\n",
+	// the error is reported at a position a //line directive moved into another file (template-mapping generators)
+	"unparseable:behind-a-line-directive":                        "//line demo.tmpl:1\nfunc Broken_$T( {\n",
+	"unparseable:behind-a-line-directive-with-a-large-line":      "var Ok_$T = 1\n\n//line demo.tmpl:900\nfunc Broken_$T( {\n",
+	"unparseable:behind-a-line-directive-naming-the-output-file": "var Ok_$T = 1\n\n//line zz_generated.$G.go:900\nfunc Broken_$T( {\n",
 }
 
 func isUnparseable(kind string) bool { return strings.HasPrefix(kind, "unparseable") }
@@ -265,7 +270,13 @@ func checkCase(c *core.Ctx, cs Case) {
 			}
 		case "unparseable":
 			fn := failPkg + "/zz_generated." + f.Gen + ".go:"
-			if o.Err == "" {
+			if strings.Contains(f.Kind, "line-directive") && !strings.Contains(f.Kind, "output-file") {
+				// the syntax position is where the //line directive says it is (a file next to the output)
+				fn = failPkg + "/demo.tmpl:"
+			}
+			if o.Err == "" && o.Panic != "" {
+				c.Fail("C02-syntax-error-report-panics", cs, "%s: unparseable rendering: Execute did not return an error, it panicked: %s", desc, o.Panic)
+			} else if o.Err == "" {
 				c.Fail("", cs, "%s: unparseable rendering but Execute returned nil", desc)
 			} else if !strings.Contains(o.Err, fn) {
 				c.Fail("", cs, "%s: Execute error %q does not carry the syntax position %s<line>:<col>", desc, o.Err, fn)
